@@ -111,6 +111,12 @@ func GenPackage(t *rapid.T, o GenOpts, nfiles, perFile int) *PackageSpec {
 		case 0:
 			f.CffAlias = "c"
 		}
+		switch uniform(t, "oddimp", 8) {
+		case 0:
+			f.OddImp = 1
+		case 1:
+			f.OddImp = 2
+		}
 		switch uniform(t, "timeimp", 6) {
 		case 0:
 			f.TimeImp = "plain"
@@ -425,7 +431,10 @@ func runCase(p *PackageSpec, prop string, scn int, race bool, tag string, replay
 	if p.Twin {
 		os.WriteFile(filepath.Join(in, "twin_test.go"), []byte("package inner\n\nimport _ \"vcase/pm\"\n"), 0o644)
 	}
-	bargs := []string{"test", "-c", "-o", filepath.Join(dir, "inner.test")}
+	// the program is built with a tag that cff did not see: constants declared
+	// per build configuration (bc_on.go / bc_off.go) have other values now
+	// than when the code was generated
+	bargs := []string{"test", "-c", "-tags", "verifb", "-o", filepath.Join(dir, "inner.test")}
 	if race {
 		bargs = append(bargs, "-race")
 	}
